@@ -1,7 +1,7 @@
 (* C15 — property theorems only (statements pinned in Pins_C15.v). *)
 From Coq Require Import List Arith Lia Bool.
 Import ListNotations.
-From SV Require Import c15.Conc c15.Model_C15 c15.Proofs_C15 c15.Proofs_C15_Excl.
+From SV Require Import c15.Conc c15.Model_C15 c15.Proofs_C15 c15.Proofs_C15_Excl c15.Proofs_C15_Spawn.
 
 (* Serialisation (repaired lock discipline): for every number of threads, every script and every schedule,
    at most one thread is inside a stop-the-world section, and it owns the heap mutex. *)
@@ -36,13 +36,26 @@ Theorem C15_stw_refuted_thread_runs :
              prog (th w' 1) = [ACompute].
 Proof. exact f10_thread_runs. Qed.
 
-(* Visibility of a completed global update is REFUTED for a thread in the window between its start and its
-   registration: it executes an instruction with the old table after the update completed. *)
+(* Visibility of a completed global update WAS refuted for a thread in the window between its start and its
+   registration (the tree before 56291059, spawn_locked = false): it executes an instruction with the old table after
+   the update completed.  Kept as the failing history a reverted repair would bring back. *)
 Theorem C15_global_visible_refuted_spawn_window :
-  let w := run cfg_fixed spawn_sched (init spawn_progs) in
-  (forall s x, pc (th w s) <> Stw x) /\ pc (th w 2) = Done /\ env_gen w = 1 /\
-  pc (th w 1) = Exec /\ seen (th w 1) = 0.
+  let w := run cfg_pre_spawn_fix spawn_sched (init spawn_progs) in
+  (forall s x, pc (th w s) <> Stw x) /\ pc (th w 2) = Done /\ env_gen w = 1 /\ pc (th w 1) = Exec /\ seen (th w 1) = 0.
 Proof. exact spawn_window_stale. Qed.
+
+Theorem C15_unregistered_runner_before_fix :
+  let w := run cfg_pre_spawn_fix spawn_overlap_sched (init spawn_progs) in
+  exists s, pc (th w 2) = Stw s /\ live (th w 1) = true /\ reg (th w 1) = false.
+Proof. exact unregistered_runner_before_fix. Qed.
+
+(* With thread creation under the heap guard (spawn_locked = true, the current tree): for every number of threads,
+   every script (spawns included) and EVERY schedule, while any stop-the-world section is in progress every thread
+   that has been started and has not finished is registered - the section's passes reach it. *)
+Theorem C15_no_unregistered_runner_during_section : forall progs sched h s t,
+  let w := run cfg_fixed sched (init progs) in
+  pc (th w h) = Stw s -> live (th w t) = true -> reg (th w t) = true.
+Proof. exact no_unregistered_runner_run. Qed.
 
 (* Exclusive access OUTSIDE the known windows.  known_window w (decidable): some thread is between its paused-load
    (which returned false) and ctx.store(None) while its flag has since been set, or some thread is running but not yet
@@ -65,8 +78,31 @@ Proof. exact all_stopped_after_first_pass_lemma. Qed.
 
 Example C15_window_free_nonvacuous :
   window_free cfg_fixed wf_sched (init wf_progs) = true /\
-  pc (th (run cfg_fixed (firstn 22 wf_sched) (init wf_progs)) 0) = Stw (SAccess 1 1) /\
-  pc (th (run cfg_fixed (firstn 28 wf_sched) (init wf_progs)) 0) = Stw (SAccess 2 1) /\
-  window_free cfg_fixed (firstn 28 wf_sched) (init wf_progs) = true /\
+  pc (th (run cfg_fixed (firstn 27 wf_sched) (init wf_progs)) 0) = Stw (SAccess 1 1) /\
+  pc (th (run cfg_fixed (firstn 33 wf_sched) (init wf_progs)) 0) = Stw (SAccess 2 1) /\
+  window_free cfg_fixed (firstn 33 wf_sched) (init wf_progs) = true /\
   env_gen (run cfg_fixed wf_sched (init wf_progs)) = 1.
 Proof. exact window_free_example. Qed.
+
+(* Hence only the exit window is left: exclusive access along every run none of whose worlds has a thread between its
+   paused-load (which returned false) and ctx.store(None) with its flag since set (exit_window, decidable) ... *)
+Theorem C15_mutual_exclusion_outside_exit_window : forall progs sched,
+  exit_window_free cfg_fixed sched (init progs) = true -> Excl15 (run cfg_fixed sched (init progs)).
+Proof. exact mutual_exclusion_outside_exit_window_lemma. Qed.
+
+(* ... and every started, unfinished thread the stopper's first pass has passed is parked or inside a primitive until
+   the stopper resumes it (no registration premise any more). *)
+Theorem C15_all_stopped_outside_exit_window : forall progs sched h s t,
+  exit_window_free cfg_fixed sched (init progs) = true ->
+  let w := run cfg_fixed sched (init progs) in
+  pc (th w h) = Stw s -> covered s t = true -> t <> h -> live (th w t) = true ->
+  safe_to_access (th w t) = true.
+Proof. exact all_stopped_outside_exit_window_lemma. Qed.
+
+Example C15_exit_window_free_nonvacuous :
+  exit_window_free cfg_fixed wf_sched (init wf_progs) = true /\
+  (let w := run cfg_fixed (firstn 6 wf_sched) (init wf_progs) in
+   pc (th w 0) = SpReg /\ pc (th w 1) = Run /\ reg (th w 1) = false /\ heap w = Some 0) /\
+  (let w := run cfg_fixed (firstn 10 wf_sched) (init wf_progs) in reg (th w 1) = true /\ heap w = None) /\
+  pc (th (run cfg_fixed (firstn 27 wf_sched) (init wf_progs)) 0) = Stw (SAccess 1 1).
+Proof. exact exit_window_free_example. Qed.
